@@ -29,3 +29,5 @@ EQUIVALENT = [
     ('x offset numpy functions', G, "            x_offset = 2. * array[:, 0].max() - array[:, 0].min()", "            x_offset = 2. * np.max(array[:, 0]) - np.min(array[:, 0])"),
     ('label via full_like', G, "            channel_probes.append(array * 0 + ind)", "            channel_probes.append(np.full_like(array, ind))"),
 ]
+BREAKING.append(('optional matrices merged over the probes that have them', 'phylib/io/merge.py', "            try:\n                concat = block_diag(*_load_multiple_files(fn, self.subdirs))\n            except FileNotFoundError:\n                logger.debug(\"File %s not found, skipping.\", fn)\n                continue\n", "            subdirs = [subdir for subdir in self.subdirs if (subdir / fn).exists()]\n            if not subdirs:\n                continue\n            concat = block_diag(*_load_multiple_files(fn, subdirs))\n", ['C12.S3']))
+EQUIVALENT.append(('optional matrices skipped by an existence test on all probes', 'phylib/io/merge.py', "            try:\n                concat = block_diag(*_load_multiple_files(fn, self.subdirs))\n            except FileNotFoundError:\n                logger.debug(\"File %s not found, skipping.\", fn)\n                continue\n", "            if not all((subdir / fn).exists() for subdir in self.subdirs):\n                continue\n            concat = block_diag(*_load_multiple_files(fn, self.subdirs))\n"))
